@@ -36,6 +36,9 @@ var c16Shapes = []c16Shape{
 	{"array-in-object-list", `{"a":1,"k":[`, "2", `]}`},
 	{"object-with-earlier-members", `{"x":[1],"y":"s","k":`, "0", "}"},
 	{"newline-array", "[\n", "", "\n]"},
+	{"array-after-an-element", "[0,", "1", "]"},
+	{"object-after-a-member", `{"a":0,"k":`, "1", "}"},
+	{"object-value-after-colon-space", `{"k": `, "1", "}"},
 }
 
 type c16Case struct {
@@ -391,7 +394,7 @@ func init() {
 	fw.Register(&fw.Prop{
 		ID:    "C16",
 		Level: "exploration",
-		Rule: "bombs = 8 nesting shapes ('[', '{\"k\":', '[{\"k\":', whitespace-padded, with earlier members, newline-separated) x depths 10 … 10^6 (10^7 thorough) x closed/unclosed x 6 modes (Detect limit 0, limit 2^31, limit = len, limit = len/2, DetectReader limit 0, as one line of an NDJSON stream) x 7 primer detections executed just before on the same pooled parser state (GOMAXPROCS=1, GC off: the pooled state really is reused). Repeats = ~75 non-nesting units (BOMs, white space, markup / comment openers, separators, magic numbers) and literals drawn from the source of the tree under test, each repeated to 6 MiB (24 MiB thorough), alone and followed by '[1]' / 'x', through Detect with limit 0 / 2^31 and DetectReader; the same inside one construct (escape sequences of one JSON string, elements of one array, attributes of one tag, dashes of one comment, rows of one table, doubled quotes of one cell): any recursion whose depth follows the input overflows the 64 MiB stack or breaks the plateau. Each bomb runs in its own goroutine in a child whose maximum stack is 64 MiB. " +
+		Rule: "bombs = 11 nesting shapes ('[', '{\"k\":', '[{\"k\":', whitespace-padded, with earlier members, newline-separated) x depths 10 … 10^6 (10^7 thorough) x closed/unclosed x 6 modes (Detect limit 0, limit 2^31, limit = len, limit = len/2, DetectReader limit 0, as one line of an NDJSON stream) x 7 primer detections executed just before on the same pooled parser state (GOMAXPROCS=1, GC off: the pooled state really is reused). Repeats = ~75 non-nesting units (BOMs, white space, markup / comment openers, separators, magic numbers) and literals drawn from the source of the tree under test, each repeated to 6 MiB (24 MiB thorough), alone and followed by '[1]' / 'x', through Detect with limit 0 / 2^31 and DetectReader; the same inside one construct (escape sequences of one JSON string, elements of one array, attributes of one tag, dashes of one comment, rows of one table, doubled quotes of one cell): any recursion whose depth follows the input overflows the 64 MiB stack or breaks the plateau. Each bomb runs in its own goroutine in a child whose maximum stack is 64 MiB. " +
 			"non-trivial = depth >= 8192 (twice the cap); distinct = distinct (shape, depth, closed, mode, primer).",
 		Assumptions: []string{
 			"a fatal stack overflow kills the child; the supervisor re-runs the batch in trace mode and pins the case",
